@@ -176,6 +176,9 @@ def _bool(interp, args, kwargs, node):
     v = args[0]
     if isinstance(v, Const):
         return FormulaV(("const", bool(v.value)), "pysmt")
+    if isinstance(v, PredV):
+        # the constant of a test: one constant per outcome of the test (already decided on this path, or decided here)
+        return FormulaV(("const", bool(interp.decide_pred(v.p))), "pysmt")
     return FormulaV(("opaque", ("Bool", desc(v))), "pysmt")
 
 
@@ -632,7 +635,9 @@ def _enumerate(interp, args, kwargs, node):
             n = n  # positions after a symbolic segment are relative to it as well
         else:
             b = interp.fresh_var("x")
-            out.append(("each", b, ("members", s[1]), PTRUE, TupleV((LinV(F.lin_term(("pos", b, ("members", s[1])))), ElemV(b, "plain")))))
+            sl = interp.as_lin(start)
+            pos = F.lin_add(F.lin_term(("pos", b, ("members", s[1]))), F.lin_add(sl.lin, F.lin_const(n)) if sl else F.lin_const(n))
+            out.append(("each", b, ("members", s[1]), PTRUE, TupleV((LinV(pos), ElemV(b, "plain")))))
     return interp.alloc(HList(out))
 
 
@@ -653,13 +658,70 @@ def _zip(interp, args, kwargs, node):
     return interp.alloc(HList([("each", b, ("members", ("zip",) + tuple(desc(a) for a in args)), PTRUE, ElemV(b, "plain"))]))
 
 
+@ext("builtins.map")
+def _map(interp, args, kwargs, node):
+    """map(f, xs): the sequence of f(x), element by element (evaluated where it is written, like a comprehension)."""
+    if len(args) != 2:
+        interp.err(node, "map() with several sequences")
+    fv, out = args[0], []
+    for sg in interp.segments(args[1], node):
+        if sg[0] == "one":
+            out.append(("one", interp.call(fv, [sg[1]], {}, node)))
+        elif sg[0] == "each":
+            out.append(("each", sg[1], sg[2], sg[3], interp.call(fv, [sg[4]], {}, node)))
+        else:
+            b = interp.fresh_var("x")
+            out.append(("each", b, ("members", sg[1]), PTRUE, interp.call(fv, [ElemV(b, "plain")], {}, node)))
+    return interp.alloc(HList(out))
+
+
+@ext("builtins.next")
+def _next(interp, args, kwargs, node):
+    """next(iterable[, default]) on a sequence the engine has as a value: the first element, the default for an empty one."""
+    segs = interp.segments(args[0], node)
+    has_default = len(args) > 1
+    if not segs:
+        if has_default:
+            return args[1]
+        from .absint import RaiseSig
+        raise RaiseSig(ExcV("StopIteration"), node)
+    if segs[0][0] == "one":
+        return segs[0][1]
+    if segs[0][0] == "each" and len(segs) == 1:
+        # a generic family: empty (default) or its first member - both outcomes are explored
+        _, b, fam, g, val = segs[0]
+        emp = interp.decide_pred(("empty", interp.list_desc(interp.deref(args[0]))) if isinstance(args[0], Ref) else ("empty", fam))
+        if emp:
+            if has_default:
+                return args[1]
+            from .absint import RaiseSig
+            raise RaiseSig(ExcV("StopIteration"), node)
+        w = interp.fresh_var("first")
+        return interp.inst(val, {b: w})
+    interp.err(node, "next() of a sequence whose first element the analysis cannot name")
+
+
 @ext("builtins.sorted")
 def _sorted(interp, args, kwargs, node):
     v = args[0]
     segs = interp.segments(v, node)
     key = kwargs.get("key")
     rev = kwargs.get("reverse")
-    interp.log("sorted", node, src=v, key=key, reverse=rev)
+    keyvals = None
+    if isinstance(key, LambdaV):
+        # what the key function returns for each (generic) element: lets a rule see *by what* the sequence is ordered
+        keyvals = []
+        for sg in segs:
+            el = sg[1] if sg[0] == "one" else (sg[4] if sg[0] == "each" else None)
+            if el is None:
+                keyvals = None
+                break
+            try:
+                keyvals.append((desc(el), desc(interp.call_lambda(key, [el], {}, node))))
+            except Exception:  # noqa: BLE001 - an unreadable key function is recorded as such
+                keyvals = None
+                break
+    interp.log("sorted", node, src=v, key=key, reverse=rev, keyvals=keyvals)
     if all(s[0] == "one" for s in segs) and all(isinstance(s[1], Const) for s in segs) and key is None:
         try:
             vals = sorted((s[1].value for s in segs), reverse=bool(rev.value) if isinstance(rev, Const) else False)
@@ -1479,6 +1541,12 @@ def dict_method(interp, ref, o: HDict, name, args, kwargs, node):
                 o.entries[ck[1]] = args[1] if len(args) > 1 else Const(None)
                 interp.log("dict.set", node, obj=ref, key=args[0], value=o.entries[ck[1]])
             return o.entries[ck[1]]
+        # a computed key: `if k not in d: d[k] = default` followed by `d[k]`, decided like the statements would be
+        key = args[0]
+        present = interp.decide_pred(interp.contains(ref, key, node))
+        if not present:
+            interp.setitem(ref, key, args[1] if len(args) > 1 else Const(None), node)
+        return interp.dict_load(ref, interp.deref(ref), key, node)
     if name == "clear":
         o.entries.clear()
         o.each.clear()
@@ -1507,6 +1575,45 @@ def str_method(interp, obj, name, args, kwargs, node):
             return Sym(("join", s, interp.list_desc(interp.deref(a))), "str")
         return Sym(("join", s, desc(a)), "str")
     if name == "format":
+        # plain positional / numbered / named fields without conversions: the same text an f-string builds
+        import string as _string
+        try:
+            fields = list(_string.Formatter().parse(s))
+        except ValueError:
+            fields = None
+        if fields is not None and all((not spec) and conv is None for _, fld, spec, conv in fields):
+            parts, auto, ok = [], 0, True
+            for lit, fld, spec, conv in fields:
+                if lit:
+                    parts.append(lit)
+                if fld is None:
+                    continue
+                if fld == "":
+                    v = args[auto] if auto < len(args) else None
+                    auto += 1
+                elif fld.isdigit():
+                    v = args[int(fld)] if int(fld) < len(args) else None
+                else:
+                    v = kwargs.get(fld)
+                if v is None:
+                    ok = False
+                    break
+                if isinstance(v, Const) and isinstance(v.value, (str, int)) and not isinstance(v.value, bool):
+                    parts.append(str(v.value))
+                elif isinstance(v, LinV) and F.lin_is_const(v.lin):
+                    parts.append(str(v.lin[1]))
+                elif isinstance(v, NameV):
+                    parts.extend(v.parts)
+                else:
+                    parts.append(desc(v))
+            if ok:
+                merged = []
+                for q in parts:
+                    if isinstance(q, str) and merged and isinstance(merged[-1], str):
+                        merged[-1] += q
+                    else:
+                        merged.append(q)
+                return Const("".join(merged)) if all(isinstance(q, str) for q in merged) else NameV(tuple(merged))
         return Sym(("format", s, tuple(desc(a) for a in args)), "str")
     return Sym(("strcall", s, name, tuple(desc(a) for a in args)), "str")
 
